@@ -136,6 +136,9 @@
 //! slower at compiling the regexes. This depends on the size of your scanner modes, i.e. the number
 //! of regexes you use.
 
+#[cfg(feature = "verif_loom")]
+extern crate scnr_verif_std as std;
+
 /// Module with error definitions
 mod errors;
 pub use errors::{Result, ScnrError, ScnrErrorKind};
